@@ -16,7 +16,7 @@ int64_t nondet_i64(void);
 double nondet_double(void);
 binson_type nondet_type(void);
 
-size_t vc_k, vc_j;
+size_t vc_k, vc_j, vc_memcmp_idx, vc_cstr_max;
 int vc_memcmp_result; size_t vc_memcmp_n; const void *vc_memcmp_a, *vc_memcmp_b; size_t vc_strlen_result;
 
 #define H_END()    __CPROVER_assert(0, "vacuity control: harness end reachable under the precondition")
@@ -100,3 +100,65 @@ void h_binson_write_boolean(void)
     bool r = binson_write_boolean(w, nondet_bool());
     if (r) { H_END(); } else { H_END(); }
 }
+
+void h_binson_writer_init(void)
+{
+    binson_writer *w = malloc(sizeof(*w));
+    __CPROVER_assume(w != NULL);
+    size_t n = nondet_size_t();
+    uint8_t *b = nondet_bool() ? NULL : malloc(n);
+    bool r = binson_writer_init(w, b, n);
+    if (r) { H_END(); } else { H_END(); }
+}
+
+void h_binson_writer_reset(void)
+{
+    binson_writer *w = mk_writer();
+    bool r = binson_writer_reset(w);
+    if (r) { H_END(); } else { H_END(); }
+}
+
+void h_binson_writer_get_counter(void)
+{
+    binson_writer *w = mk_writer();
+    binson_writer_get_counter(w);
+    H_END();
+}
+
+void h_binson_write_integer(void)
+{
+    binson_writer *w = mk_writer();
+    bool r = binson_write_integer(w, nondet_i64());
+    if (r) { H_END(); } else { H_END(); }
+}
+
+void h_binson_write_double(void)
+{
+    binson_writer *w = mk_writer();
+    union { double d; int64_t i; } u;
+    u.d = nondet_double();
+    size_t o_used = w->buffer_used;
+    bool r = binson_write_double(w, u.d);
+    /* the 8 payload bytes are the IEEE-754 image of the argument, little-endian (bit identity
+     * cannot be written with == on doubles in the contract: NaN payloads, -0.0) */
+    if (r && vc_j >= 1 && vc_j < 9) {
+        __CPROVER_assert(w->buffer[o_used + vc_j] == VC_LE_BYTE(u.i, vc_j - 1),
+                         "write_double stores the 8 IEEE-754 bytes little-endian");    /*@ double-8-bytes-le */
+    }
+    if (r) { H_END(); } else { H_END(); }
+}
+
+#define BLOB_HARNESS(fn, T)                                        \
+void h_##fn(void)                                                  \
+{                                                                  \
+    binson_writer *w = mk_writer();                                \
+    size_t len = nondet_size_t();                                  \
+    __CPROVER_assume(len <= 2147483647);                           \
+    T *p = malloc(len);                                            \
+    __CPROVER_assume(p != NULL);                                   \
+    bool r = fn(w, p, len);                                        \
+    if (len <= 2) { if (r) { H_END(); } else { H_END(); } }        \
+}
+BLOB_HARNESS(binson_write_string_with_len, char)
+BLOB_HARNESS(binson_write_bytes, uint8_t)
+BLOB_HARNESS(binson_write_raw, uint8_t)
